@@ -3,6 +3,7 @@
 package extendeddaemonsetreplicaset
 
 import (
+	"k8s.io/apimachinery/pkg/types"
 	appsv1 "k8s.io/api/apps/v1"
 	corev1 "k8s.io/api/core/v1"
 	metav1 "k8s.io/apimachinery/pkg/apis/meta/v1"
@@ -226,4 +227,59 @@ func ZZ_C12_activeDuringCanaryLeavesForeignPodsAlone() {
 		}
 	}
 	nondet.Reach("C12.during-canary.active-synced", synced == rsOld.Name)
+}
+
+// ZZ_C12_twoExtendedDaemonSetsWithTheSameTemplate: one controller process serves two ExtendedDaemonSets
+// whose pod templates are identical (same template hash): X = ns/foo and Y = another name in the same
+// namespace, or the same / another name in another namespace.  Their active replica sets are synced
+// one after the other by the same process, in either order, on a one-node cluster.  Each creates its
+// pod in its own namespace with its own name label and its own replica-set label, and the second sync
+// of each creates nothing more.
+func ZZ_C12_twoExtendedDaemonSetsWithTheSameTemplate() {
+	c, ds, rsX, _ := zzStore(1)
+	ds.Status.ActiveReplicaSet = rsX.Name
+	yNs, yName := zzNS, "bar"
+	switch nondet.String("y", "other-name-same-namespace", "same-name-other-namespace", "other-name-other-namespace") {
+	case "same-name-other-namespace":
+		yNs, yName = "ns2", zzEDSName
+	case "other-name-other-namespace":
+		yNs = "ns2"
+	}
+	dy := zzDS()
+	dy.Name, dy.Namespace, dy.UID = yName, yNs, types.UID("uid-y")
+	rsY := zzRS(yName+"-y", zzHashNew)
+	rsY.Namespace = yNs
+	rsY.Labels[datadoghqv1alpha1.ExtendedDaemonSetNameLabelKey] = yName
+	rsY.OwnerReferences[0].Name, rsY.OwnerReferences[0].UID = yName, "uid-y"
+	dy.Status.ActiveReplicaSet = rsY.Name
+	c.EDS = append(c.EDS, dy)
+	c.ERS = append(c.ERS, rsY)
+	type who struct{ ns, eds, rs string }
+	x, y := who{zzNS, zzEDSName, rsX.Name}, who{yNs, yName, rsY.Name}
+	order := []who{x, y}
+	if nondet.Bool("ySyncedFirst") {
+		order = []who{y, x}
+	}
+	for round := 0; round < 2; round++ {
+		for _, w := range order {
+			mark := len(c.Log)
+			_, err := zzReconcile(zzReconciler(c, nondet.Bool("nodeAffinitySupported")), w.ns, w.rs)
+			nondet.Assert("C12.same-template.noerror", err == nil)
+			creates := 0
+			for _, e := range c.Log[mark:] {
+				if e.Kind == "Pod" && e.Verb == "create" {
+					creates++
+					p := e.Obj.(*corev1.Pod)
+					nondet.Assert("C12.same-template.creates-own-pod", p.Namespace == w.ns && p.Labels[datadoghqv1alpha1.ExtendedDaemonSetNameLabelKey] == w.eds &&
+						p.Labels[datadoghqv1alpha1.ExtendedDaemonSetReplicaSetNameLabelKey] == w.rs)
+				}
+				if e.Kind == "Pod" && e.Verb == "delete" {
+					nondet.Assert("C12.same-template.deletes-nothing", false)
+				}
+			}
+			nondet.Assert("C12.same-template.one-pod-each", (round == 0 && creates == 1) || (round == 1 && creates == 0))
+		}
+		zzKubelet(c)
+	}
+	nondet.Reach("C12.same-template.two-pods", len(c.Pods) == 2)
 }
